@@ -886,9 +886,11 @@ Proof.
   pose proof (tr_netirr_sum smt plan Hplan _ _ _ 0 0 _ _ _ Hly' (or_intror eq_refl) En) as Hsum.
   rewrite plan_sum_irr in Hsum.
   (* the trigger, in terms of the rounded sums *)
-  destruct (rz_fields _ _ _ _ _ _ _ Er2) as [a [Hloop [HA [HF HW]]]]. fold rd in Hloop, HA, HF, HW.
+  destruct (rz_fields _ _ _ _ _ _ _ Er2) as [a [Hloop [HA [HF HW]]]].
+  change (tr_rootdepth (s_z_root s) (k_Zmin k)) with rd in Hloop, HA, HF, HW.
   pose proof (rz_loop_sums k m (s_r_cor s) rd (k_Aer k) p 0 (k_SxTop k) _ _ _ Hw Hg Hloop) as Hsums.
-  cbv zeta in Hsums. fold plan in Hsums. cbn [a_act a_fc a_wp] in Hsums. destruct Hsums as [S1 [S2 S3]].
+  cbv zeta in Hsums. change (tr_plan k m (s_r_cor s) rd (tr_comp_sto p rd) p (k_SxTop k)) with plan in Hsums.
+  cbn [a_act a_fc a_wp] in Hsums. destruct Hsums as [S1 [S2 S3]].
   pose proof (tr_rootdepth_ge (s_z_root s) _ Hzm) as Hrd. change (1/100 <= rd) in Hrd.
   assert (Hd : 0 < rd * 1000) by lra.
   rewrite HA, HF, HW in Hlt. set (d := rd * 1000) in *.
